@@ -5,6 +5,10 @@ from .. import core
 from ..runner import Spec, Stream
 
 RACE_ENV = {"race": {"GORACE": "halt_on_error=1 exitcode=66"}}
+OPTDEC = {"SONIC_USE_OPTDEC": "1"}
+OPT_ENV = {"optdec": OPTDEC}
+BOTH_ENV = {"default": {}, "optdec": OPTDEC}
+RACE_OPT_ENV = {"race-optdec": dict(OPTDEC, GORACE="halt_on_error=1 exitcode=66")}
 
 
 def _gets(tokens):
@@ -20,7 +24,9 @@ class C08(Spec):
             "(non-trivial: >= 2 goroutines); rcu: goroutines racing the first use of never-seen reflect.StructOf types through "
             "Marshal/Unmarshal/Pretouch/Get/Valid, compared with the same call alone and encoding/json; pool: goroutines racing Marshal/"
             "MarshalIndent/Unmarshal of recognisable payloads after calls that return pooled buffers through the EscapeHTML/ValidateString "
-            "post-passes, error exits and user buffers, every result compared with the same call alone; race streams run in the -race build")
+            "post-passes, error exits and user buffers, every result compared with the same call alone (pool-indent: indenting encoders only, while an indenting stream encoder keeps "
+            "failing on a broken writer); fold: concurrent decodes of keys that match only case-insensitively, vs encoding/json; rcu and fold "
+            "also run with the alternative decoder (SONIC_USE_OPTDEC=1); race streams run in the -race build")
     trusted_base = ["Go memory model, sync.Mutex, sync/atomic, sync.Pool, the race detector (used as validation, not as proof)",
                     "the interleaving model's atomic steps = one atomic load/store/lock/unlock or a pure computation on private data "
                     "(the accesses to ProgramCache.p are atomic.LoadPointer/StorePointer in pcache.go)",
@@ -45,6 +51,11 @@ class C08(Spec):
             Stream("rcu-race", "c08.rcu", 5 if q else 80, envs=RACE_ENV, timeout=120.0, use_model=False, race=True),
             Stream("pool", "c08.pool", 6 if q else 200, timeout=30.0, use_model=False),
             Stream("pool-race", "c08.poolsmall", 2 if q else 60, envs=RACE_ENV, timeout=120.0, use_model=False, race=True),
+            Stream("pool-indent", "c08.poolindent", 4 if q else 120, timeout=30.0, use_model=False),
+            Stream("fold", "c08.fold", 3 if q else 120, envs=BOTH_ENV, timeout=30.0, use_model=False),
+            Stream("rcu-optdec", "c08.rcu", 10 if q else 300, envs=OPT_ENV, timeout=30.0, use_model=False),
+            Stream("race-optdec", "c08.foldsmall", 1 if q else 40, envs=RACE_OPT_ENV, timeout=120.0, use_model=False, race=True),
+            Stream("rcu-race-optdec", "c08.rcu", 2 if q else 60, envs=RACE_OPT_ENV, timeout=120.0, use_model=False, race=True),
         ]
 
     def extra(self, ctx):
@@ -135,6 +146,12 @@ class C08(Spec):
                     out.append(("pcache-race-wrong-result", "%s: %s maxcompiles=%s" % (env, v, s.get("maxcompiles"))))
                 elif m.get("model") not in (None, "ok", "unsupported"):
                     out.append(("pcache-invariant-broken", "%s: %s" % (env, m.get("model"))))
+            elif case[0] == "fold":
+                if v != "ok":
+                    if s.get("seq") not in (None, "ok"):
+                        out.append(("tie:fold-vs-encoding/json", "%s: alone: %s" % (env, s.get("seq", "")[:300])))
+                    else:
+                        out.append(("concurrent-differs-from-alone", "%s: case-insensitive key matching under concurrent decodes: %s" % (env, v[:400])))
             elif case[0] == "pool":
                 if v != s.get("seq"):
                     out.append(("concurrent-differs-from-alone", "%s: pooled buffers/stacks: %s" % (env, s.get("bad", "")[:400])))
@@ -160,6 +177,8 @@ class C08(Spec):
                 if len(masks) > 1:
                     return True
             return False
+        if case[0] == "fold":
+            return int(case[3]) >= 2
         if case[0] == "pool":
             return int(case[2]) >= 2
         if case[0] in ("pcrace", "rcu"):
